@@ -11,7 +11,7 @@ PROP = dict(
          "pair of float spellings (equal and different values) as consecutive arms, bare and inside a tuple with an "
          "or-pattern; each program is checked by the real checker (check_lsp), the arms reported redundant are mapped back "
          "through the label spans; compared: one useful/redundant flag per arm; spec oracle: brute-force reachability over "
-         "every value of the finite representative domain (reported <=> no value reaches the arm first); non-trivial = at "
+         "every value of the finite representative domain (reported <=> no value reaches the arm first); placement dimension (D70): case i stands at one of 17 syntactic placements in rotation (let initialiser, arm body and scrutinee of another match, function / lambda / task / block / if / else / while / for body, call argument, array / tuple / struct literal element, index of an assignment target, struct-field default); every third case is also checked as a let initialiser and both verdicts must be equal; two fixed matches are checked at all 17 placements; non-trivial = at "
          "least one arm reported redundant or an or-pattern in an arm",
     nontrivial=lambda req, imp: "0" in imp or " or " in req,
     trusted_base=COMMON_TB + [
